@@ -1,11 +1,12 @@
 #!/bin/bash
-# usage: tools/confirm_seed.sh C01 A   -- confirm a sub-agent's seeded change in a fresh scratch worktree of /repo HEAD
+# usage: tools/confirm_seed.sh C01 A [srcroot=/tmp/wt] [dsttag=A]  -- confirm a sub-agent's seeded change in a fresh scratch worktree of /repo HEAD
 # (patch applies, suite still 1466 passed with no failures, demo fails with / passes without), then store it
 # under /verif/seeded/<prop>-<tag>/ .  Removes the scratch worktree afterwards.
 set -u
-prop=$1; tag=$2
-src=/tmp/wt/$prop/_seed/$tag
-dst=/verif/seeded/$prop-$tag
+prop=$1; tag=$2; root=${3:-/tmp/wt}; dtag=${4:-$tag}
+src=$root/$prop/_seed/$tag
+dst=/verif/seeded/$prop-$dtag
+mkdir -p /tmp/wt
 wt=$(mktemp -d /tmp/wt/confirm.XXXXXX); rmdir "$wt"
 git -C /repo worktree add --detach "$wt" HEAD >/dev/null 2>&1 || { echo "worktree failed"; exit 3; }
 cleanup() { git -C /repo worktree remove --force "$wt" >/dev/null 2>&1; rm -rf "$wt"; }
@@ -13,16 +14,16 @@ trap cleanup EXIT
 cd "$wt"
 mkdir -p _seed/$tag && cp "$src"/demo.py _seed/$tag/ 
 # demos may reference the original worktree path; point them at this one
-sed -i "s#/tmp/wt/$prop#$wt#g" _seed/$tag/demo.py
-/venv/bin/python _seed/$tag/demo.py >/tmp/wt/confirm_pre.log 2>&1; pre=$?
+sed -i "s#$root/$prop#$wt#g" _seed/$tag/demo.py
+/venv/bin/python _seed/$tag/demo.py >$wt.pre.log 2>&1; pre=$?
 git apply "$src/patch.diff" || { echo "$prop-$tag: PATCH DOES NOT APPLY to current HEAD"; exit 4; }
 tests=$(/venv/bin/python -m pytest -q -p no:cacheprovider --timeout=900 --continue-on-collection-errors -n 8 2>&1 | tail -1)
-/venv/bin/python _seed/$tag/demo.py >/tmp/wt/confirm_post.log 2>&1; post=$?
+/venv/bin/python _seed/$tag/demo.py >$wt.post.log 2>&1; post=$?
 failed=$(echo "$tests" | grep -c failed)
 echo "$prop-$tag: demo pristine exit=$pre, patched exit=$post; tests: $tests"
 if [ $pre -eq 0 ] && [ $post -ne 0 ] && [ $failed -eq 0 ] && echo "$tests" | grep -q "1466 passed"; then
-  mkdir -p "$dst"; cp "$src/patch.diff" "$dst/"; cp "$src/demo.py" "$dst/demo.py"; sed -i "s#/tmp/wt/$prop#/tmp/wt/SCRATCH#g" "$dst/demo.py"
-  python3 - "$src/meta.json" "$dst/meta.json" "$prop" "$tests" "$(tail -3 /tmp/wt/confirm_post.log | tr '\n' ' ' | cut -c1-400)" <<'PY'
+  mkdir -p "$dst"; cp "$src/patch.diff" "$dst/"; cp "$src/demo.py" "$dst/demo.py"; sed -i "s#$root/$prop#/tmp/wt/SCRATCH#g" "$dst/demo.py"
+  python3 - "$src/meta.json" "$dst/meta.json" "$prop" "$tests" "$(tail -3 $wt.post.log | tr '\n' ' ' | cut -c1-400)" <<'PY'
 import json,sys
 src,dst,prop,tests,post=sys.argv[1:6]
 try: m=json.load(open(src))
@@ -31,7 +32,7 @@ m["property"]=prop
 m["confirmed_by_main"]={"base":"/repo HEAD at confirmation time","ran":["git apply patch.diff in a fresh scratch worktree","pytest suite (-n 8)","demo.py before and after the patch"],"tests_with_patch":tests,"demo_pristine_exit":0,"demo_patched_tail":post}
 json.dump(m,open(dst,"w"),indent=1)
 PY
-  echo "  stored in $dst"
+  echo "  stored in $dst"; rm -f $wt.pre.log $wt.post.log
 else
-  echo "  NOT CONFIRMED (see /tmp/wt/confirm_pre.log /tmp/wt/confirm_post.log)"; exit 5
+  echo "  NOT CONFIRMED"; tail -5 $wt.pre.log $wt.post.log; rm -f $wt.pre.log $wt.post.log; exit 5
 fi
